@@ -33,6 +33,7 @@ RULE = (
     "parse, including through a live Sphinx application. Non-trivial: a coercing or dict-merge field with a "
     "non-default value, or an INVALID value; distinct by case."
 )
+RULE += (' Invalid values include dotted paths that import fine but name a non-callable.')
 ASSUMPTIONS = [
     "the type table is written from the documentation (`myst-config` output: field type / doc_type); where the "
     "documentation is silent the entry is UNSPECIFIED: bool where int is documented, None for heading_anchors (the "
@@ -680,7 +681,9 @@ def sub_immutable(acc, shard, nshards, tier, seed):
         "---\nmyst:\n  enable_extensions: [deflist]\n---\n```{figure-md}\n![alt](img.png)\n\ncaption\n```\n",
         "---\nmyst:\n  html_meta: {a: b}\n  url_schemes: {wiki: 'https://w/{{path}}'}\n---\n[x](wiki:y)\n",
     ]
-    bases = [dict(b) for b in GLOBAL_BASES]
+    # (plus a global configuration in which the extensions that directives switch on for their own body are on already)
+    bases = [dict(b) for b in GLOBAL_BASES] + [{"enable_extensions": ["html_image", "html_admonition", "substitution", "attrs_inline"],
+                                               "substitutions": {"s1": "g1", "s2": "g2"}}]
     with front.sphinx_project() as proj:
         for bi, base in enumerate(bases):
             cfg = MdParserConfig(**copy.deepcopy(base))
